@@ -718,10 +718,16 @@ def substitute_new_locals(fn, known_locals):
                       isinstance(n.ctx, ast.Load)]
           if not uses_all or len(uses_in) != len(uses_all):
             continue
-          # closures see the name late: leave those alone
+          # closures see the name late: leave a name alone that is defined
+          # in one function and read in a lambda / def nested below it
+          scope = fn
+          for d in ast.walk(fn):
+            if d is not fn and isinstance(d, ast.FunctionDef) and any(
+                x is s or x is block[i] for x in ast.walk(d)):
+              scope = d      # innermost def that contains the definition
           if any(isinstance(d, (ast.Lambda, ast.FunctionDef)) and any(
               isinstance(n, ast.Name) and n.id == name for n in ast.walk(d))
-                 for d in ast.walk(fn) if d is not fn):
+                 for d in ast.walk(scope) if d is not scope):
             continue
           free = {n.id for n in ast.walk(s.value) if isinstance(n, ast.Name)}
           later = set()
@@ -734,39 +740,44 @@ def substitute_new_locals(fn, known_locals):
           # function after the definition counts
           later |= _assigned_after(fn, s.lineno + 1) & free
           if free & later:
-            # still safe: one use, in a simple statement (or the header of a
-            # compound one) of this block, nothing in between assigns a name
-            # the expression reads
-            if len(uses_all) != 1:
-              continue
-            j = None
-            for k in range(i + 1, len(block)):
-              if any(n is uses_all[0] for n in ast.walk(block[k])):
-                j = k
+            # still safe: every use sits in a simple statement (or the
+            # header of a compound one) of this block, and nothing before the
+            # last of them assigns a name the expression reads
+            use_idx = []
+            ok_pos = True
+            for u in uses_all:
+              jj = None
+              for k in range(i + 1, len(block)):
+                if any(n is u for n in ast.walk(block[k])):
+                  jj = k
+                  break
+              if jj is None:
+                ok_pos = False
                 break
-            if j is None:
+              st = block[jj]
+              if isinstance(st, (ast.Assign, ast.AugAssign, ast.Return,
+                                 ast.Expr)):
+                hdr = [st.value] if st.value is not None else []
+              elif isinstance(st, ast.Assert):
+                hdr = [st.test]
+              elif isinstance(st, (ast.If, ast.While)):
+                hdr = [st.test]
+              elif isinstance(st, ast.For):
+                hdr = [st.iter]
+              else:
+                hdr = []
+              if not any(n is u for h in hdr for n in ast.walk(h)):
+                ok_pos = False
+                break
+              use_idx.append(jj)
+            if not ok_pos or not use_idx:
               continue
             between = set()
-            for st in block[i + 1:j]:
+            for st in block[i + 1:max(use_idx)]:
               for n in ast.walk(st):
                 if isinstance(n, ast.Name) and isinstance(
                     n.ctx, (ast.Store, ast.Del)):
                   between.add(n.id)
-            st = block[j]
-            if isinstance(st, (ast.Assign, ast.AugAssign, ast.Return,
-                               ast.Expr, ast.Assert)):
-              hdr = [st.value] if hasattr(st, 'value') and st.value is not \
-                  None else [st]
-              if isinstance(st, ast.Assert):
-                hdr = [st.test]
-            elif isinstance(st, (ast.If, ast.While)):
-              hdr = [st.test]
-            elif isinstance(st, ast.For):
-              hdr = [st.iter]
-            else:
-              continue
-            if not any(n is uses_all[0] for h in hdr for n in ast.walk(h)):
-              continue
             if free & between:
               continue
           if len(uses_all) > 1 and isinstance(s.value, ast.Call) and not \
@@ -855,13 +866,13 @@ def normalise_module(modname, tree):
   for q, (fn, owner, cls) in function_table(tree).items():
     if q in inv:
       known = set(inv[q]['locals'])
+      if inv[q].get('returns'):
+        name_returns(fn, inv[q]['returns'])
       before = local_names(fn)
       if before - known:
         split_tuple_assignments(fn)
         coalesce_copies(fn, known)
         split_versions(fn, known)
         substitute_new_locals(fn, known)
-      if inv[q].get('returns'):
-        name_returns(fn, inv[q]['returns'])
   ast.fix_missing_locations(tree)
   return tree
